@@ -7,7 +7,7 @@ ID = "C19"
 BUDGET = {"quick": 120, "thorough": 5000}
 EXHAUSTIVE = True
 RULE = ("generated templates (text, expressions, helpers, blocks, indented partials whose indentation issues its own write "
-        "calls, subexpressions) and data; for each case the fault-free run through render_to_write / "
+        "calls, subexpressions, chained-else helpers that write themselves) and data; for each case the fault-free run through render_to_write / "
         "render_template_to_write counts the writer calls n, then EVERY k in 0..n (capped at 200) is run with a writer "
         "failing at call k: the result must be Err(IOError), nothing is written after the failure, the bytes accepted are "
         "a prefix of the fault-free output and equal to its first k segments; the model computes the same truncation; "
@@ -28,6 +28,11 @@ def base_case(rng, i):
     p0 = "line1\n{{{ml}}}\n" + tg.partial_body(1)
     main = TG(rng.fork("m"), data, helpers, ["p0"], opt={"missing": 0.1}).template(2)
     main = main + "\n  {{> p0}}\nend{{#each ml}}{{/each}}"
+    # writes issued from unusual positions: a chained-else helper that writes itself (it runs as the single element of a
+    # template built by the compiler, which has no position table of its own), a block helper's mark line, a subexpression
+    main += rng.pick(["", "{{#if nosuch}}A{{else lookup @root \"ml\"}}{{/if}}", "{{#if nosuch}}A{{else eq 1 1}}{{/if}}|",
+                      "{{#if nosuch}}A{{else mk 7}}in{{/if}}", "{{#unless ml}}A{{else vr \"<w>\"}}{{/unless}}",
+                      "{{#each nosuch}}A{{else lookup @root \"ml\"}}{{/each}}{{#with nosuch}}B{{else len ml}}{{/with}}"])
     named = rng.chance(0.5)
     return cfg, [("p0", p0), ("main", main)], data, named
 
